@@ -73,7 +73,7 @@ var c21FaultCatalogue = []string{
 	"truncb:0", "truncb:3", "truncb:8", "truncb:100", "trunce:1", "trunce:4", "trunce:8", "trunce:9", "trunce:16", "trunce:64", "trunce:200",
 	"flip:0", "flip:16:1", "flip:9:1", "flip:40:128", "flip:100:1", "flip:200:255",
 	"trail:1", "trail:8", "trail0:8", "trail0:4", "trailstream",
-	"noeos", "cut:0", "cut:1", "cut:2",
+	"noeos", "cut:0", "cut:1", "cut:2", "shortcl:0", "shortcl:1", "shortcl:2", "shortcl:eos",
 	"drift:same", "drift:name", "drift:null", "drift:type", "drift:smeta", "drift:fmeta", "drift:extra", "drift:nocols",
 	"notok", "nostate", "nocall", "emptytok", "emptycall", "oldtok", "sametok", "newcall:a", "dupstate", "dupstate:empty",
 	"usermd", "loc", "emptyloc", "rows0", "dup", "extradata", "extradata:end", "nodata",
@@ -330,7 +330,7 @@ func c21Gen(g *Gen) {
 	// (5) the client over a REAL http.Transport and listener: connection-level faults after the
 	// server received the whole request, on fresh and on reused keep-alive connections; requests are
 	// recorded where the server receives them, so a resend made below the client is visible.
-	netFaults := []string{"netdrop", "netreset", "netdropafter", "nethalf"}
+	netFaults := []string{"netdrop", "netreset", "netdropafter", "nethalf", "netcut:0", "netcut:1", "netcut:2", "netcut:eos"}
 	ncfg := "cfg enc=1048576 dec=1048576 limit=1 net=1"
 	exok := "ex in=ok big=0 rows=1 md=0 turn=echo f=ok"
 	for _, f := range netFaults {
@@ -641,6 +641,10 @@ func c21Exec(c *Case) {
 			return
 		}
 		for _, w := range env.rt.wire {
+			if w.short {
+				c.Oracle("truncated-response-accepted", fmt.Sprintf("%s succeeded although the response body broke off before the declared Content-Length was delivered (fault %q)", op, w.fault))
+				return
+			}
 			if w.overCap {
 				c.Oracle("oversize-accepted", fmt.Sprintf("%s succeeded although a response exceeded a client size cap or could not be decoded (fault %q)", op, w.fault))
 				return
